@@ -81,6 +81,8 @@ type Contract struct {
 	MaxPaths      int
 	MergeExits    bool
 	NoMerge       bool // path splitting at top-level branching statements
+	MutexUnknown  bool     // "mutexes unknown": do not assume that no mutex is held when the function starts
+	Only          []string // the function is examined for these properties only (a partial contract: obligations other properties would tag are not generated for their checks)
 	Touches       []string // properties some obligation of this function is tagged with although no clause of its own is (selection only)
 	GoInline      bool // go func(){...}() literals are executed in place (the goroutine's own order of actions; no interleaving)
 	GuardsOn      bool
@@ -815,6 +817,10 @@ func (cf *ContractFile) parseOne(path string) error {
 				c.NoMerge = true
 			case "goinline":
 				c.GoInline = true
+			case "mutexes":
+				c.MutexUnknown = rest == "unknown"
+			case "only":
+				c.Only = append(c.Only, strings.Fields(strings.ReplaceAll(rest, ",", " "))...)
 			case "touches":
 				c.Touches = append(c.Touches, strings.Fields(strings.ReplaceAll(rest, ",", " "))...)
 			case "mergeexits":
